@@ -107,7 +107,13 @@ func Convert(logger *log.Logger, input string, output string, deduplicate bool, 
 func setZoomCenterDefaults(header *HeaderV3, entries []EntryV3) {
 	minZ, _, _ := IDToZxy(entries[0].TileID)
 	header.MinZoom = minZ
-	maxZ, _, _ := IDToZxy(entries[len(entries)-1].TileID)
+	// the last addressed tile is the end of the last entry's run, which may lie in the next zoom level
+	last := entries[len(entries)-1]
+	lastID := last.TileID
+	if last.RunLength > 1 {
+		lastID += uint64(last.RunLength) - 1
+	}
+	maxZ, _, _ := IDToZxy(lastID)
 	header.MaxZoom = maxZ
 
 	if header.CenterZoom == 0 && header.CenterLonE7 == 0 && header.CenterLatE7 == 0 {
